@@ -115,7 +115,7 @@ def translate(repo):
     out2, crash2, err2 = core.run_impl(exe, ["rec atomicops"], timeout=120)
     if crash2 or len(out2) != 1:
         raise TranslateError("Atomic<T> operator recorder failed: %s %s" % (crash2, err2[-800:]))
-    txt += "inductive MEv where\n  | lock | unlock | other\nderiving Repr, DecidableEq\n\n"
+    txt += "inductive MEv where\n  | lock | unlock | other | lockSrc | unlockSrc | ownMutex\nderiving Repr, DecidableEq\n\n"
     txt += "/-- (operator, mutex events of one call, value and result as computed, value expected) -/\n"
     txt += "structure AtomicOp where\n  name : String\n  evs : List MEv\n  value : Int\n  expected : Int\nderiving Repr, DecidableEq\n\n"
     aitems = []
@@ -124,7 +124,7 @@ def translate(repo):
         if len(tk) != 3 or not re.fullmatch(r"-?\d+/-?\d+/-?\d+", tk[2]):
             raise TranslateError("Atomic<T> recorder output: %r" % part)
         evs = [] if tk[1] == "-" else tk[1].split(":")
-        if any(e not in ("lock", "unlock", "other") for e in evs):
+        if any(e not in ("lock", "unlock", "other", "lockSrc", "unlockSrc", "ownMutex") for e in evs):
             raise TranslateError("Atomic<T> recorder event: %r" % part)
         val, _, exp = tk[2].split("/")
         aitems.append('  { name := "%s", evs := [%s], value := %s, expected := %s }' % (tk[0], ", ".join("MEv." + e for e in evs), "(%s)" % val, "(%s)" % exp))
@@ -399,11 +399,19 @@ LEVEL_TEXT = ("Proved in Lean 4 for any number of threads and any finite program
               "handles, and any two handle places in live storage — the source possibly inside the object the destination releases — "
               "the acquire-first assignment touches no released storage and keeps the invariant (nested_assign_safe), a variable "
               "assigned to then holds the live source object (nested_assign_result), every heap the harness can build satisfies the "
-              "invariant and every program of assignments and scope exits on it stays safe (nested_programs_safe); the release-first "
+              "invariant and every program of assignments and scope exits on it stays safe (nested_programs_safe), and after any such "
+              "program an object is allocated iff at least one handle points at it — no leak, no early release "
+              "(nested_destroyed_exactly_when_unreferenced); the release-first "
               "order the containers had before their repair reads released storage on a = a[0].kids (release_first_unsafe); that every "
               "handle type's assignment increments before it decrements or releases is a regenerated obligation "
               "(assignment_acquires_first, from the recorded shapes).")
-LEVEL_NOTE = ("Trusted: atomicity of __sync builtins, mutual exclusion of pthread mutexes, sequential consistency at hook points, the "
+LEVEL_NOTE = ("Test-only (no model, no theorem; the driver answers the constant `ok`): the `stress` runs, among them the converting "
+              "Shared<Der> -> Shared<Base> copies (5500962), SmartObject::clone (f4a7d71) and Atomic<T> copy assignment next to a busy "
+              "source (735352c: judged by a stall watchdog and ThreadSanitizer; the lock discipline of the copy operations themselves "
+              "is the recorded obligation atomic_ops_locked). The nested-handle theorems are sequential (one program); they are stated "
+              "for the increment-store-release order of Array/Map/HashMap, the argument why Shared's and SmartObject's orders give the "
+              "same heaps is in the header of AslModel/RcNest.lean and is not mechanised; cyclic heaps are covered by the theorems but "
+              "never sampled by K (the generator and the tracing oracle refuse cycles). Trusted: atomicity of __sync builtins, mutual exclusion of pthread mutexes, sequential consistency at hook points, the "
               "scheduler harness. There is no hook point between atomicDec and the test of its result, so a decrement whose result is "
               "re-read instead of tested on return is invisible to the scheduler and rests on the free-running runs (ASan, TSan, "
               "payload counter) only. The model releases at count = 0 where Shared's unref tests <= 0 (equal because the count never "
